@@ -537,9 +537,19 @@ theorem conns_update (oldB newB : List (Int × Broker)) (conns : List (Int × Ad
         simp [h1, h0, ho, hn]
       · simp [h1, h0, ho, hn, hb, lookupD]
 
-theorem update_connsInv (s : PoolState) (m : Option MResponse) (err : Bool) (h : ConnsInv s) :
-    ConnsInv (update s m err) := by
+/-- with the whole-struct comparison of the source, "differs" is inequality of the entries -/
+theorem differs_eq (hc : KV.Gen.Routing.updateCompare = .whole) (b1 : Broker) (o : Option Broker) :
+    differs b1 o = (some b1 != o) := by
+  cases o with
+  | none => simp [differs]
+  | some b2 =>
+    simp only [differs, hc, brokersDiffer]
+    by_cases h : b1 = b2 <;> simp [h, bne]
+
+theorem update_connsInv (hc : KV.Gen.Routing.updateCompare = .whole) (s : PoolState) (m : Option MResponse) (err : Bool)
+    (h : ConnsInv s) : ConnsInv (update s m err) := by
   unfold update
+  simp only [differs_eq hc]
   cases err with
   | true =>
     simp only [↓reduceIte]
